@@ -192,3 +192,96 @@ package core
 //@   assert[C20.capacity_gate_add] at "loc.state.Add(ctx, id, fact)": capOK
 //@ func (*Location).AddRule
 //@   assert[C20.capacity_gate_addrule] at "loc.state.Add(ctx, id, wrapper)": capOK
+
+// ---- C19 / C10: access and enablement gates ----------------------------------------------
+// Permissions (false at the entry of every function unless its contract requires them):
+//   wok: CheckWrite returned nil;  rok: CheckRead returned nil;  eok: Enabled returned true.
+//@ ghost wok bool gate
+//@ ghost rok bool gate
+//@ ghost eok bool gate
+//@ ghost lastProp string
+//@ ghost lastPropVal string
+
+//@ func GetPropString
+//@   ghost-ensures lastProp == prop && lastPropVal == result0
+//@   also-modifies lastProp, lastPropVal
+
+//@ func (*Location).CheckWrite
+//@   ensures[C19.checkwrite_exact] (result == nil) == (!old(loc.ReadOnly) && (lastPropVal == "" || ctx.WriteKey == lastPropVal))
+//@   ensures[C19.checkwrite_prop]  old(loc.ReadOnly) || lastProp == "writeKey"
+//@   ghost-ensures result == nil ==> wok
+//@   also-modifies wok, lastProp, lastPropVal
+//@ func (*Location).CheckRead
+//@   ensures[C19.checkread_exact] (result == nil) == (lastPropVal == "" || ctx.ReadKey == lastPropVal)
+//@   ensures[C19.checkread_prop]  lastProp == "readKey"
+//@   ghost-ensures result == nil ==> rok
+//@   also-modifies rok, lastProp, lastPropVal
+//@ func (*Location).Enabled
+//@   ensures[C10.enabled_exact] result == (lastPropVal == "" || lastPropVal == "yes" || lastPropVal == "true")
+//@   ensures[C10.enabled_prop]  lastProp == "enabled"
+//@   ghost-ensures result ==> eok
+//@   also-modifies eok, lastProp, lastPropVal
+
+//@ func (*Context).SubContext
+//@   ensures[C19.subcontext_keeps_keys] result != nil && result.ReadKey == old(ctx.ReadKey) && result.WriteKey == old(ctx.WriteKey)
+
+// Every mutation of a state reached from a Location requires the write permission; searches and rule
+// lookups require the read permission.
+//@ iface State.Add
+//@   requires[C19.write_gate_add] wok
+//@ iface State.Rem
+//@   requires[C19.write_gate_rem] wok
+//@ iface State.Clear
+//@   requires[C19.write_gate_clear] wok
+//@ iface State.Delete
+//@   requires[C19.write_gate_delete] wok
+//@ iface State.Search
+//@   requires[C19.read_gate_search] rok
+//@ iface State.FindCachedRules
+//@   requires[C19.read_gate_findrules] rok
+//@ iface State.FindRules
+//@   requires[C19.read_gate_findrules2] rok
+
+//@ func SetProp
+//@   requires[C19.write_gate_setprop] wok
+//@ func RemProp
+//@   requires[C19.write_gate_remprop] wok
+//@ func Expire
+//@   requires[C19.write_gate_expire] wok
+//@ func (*Location).setParents
+//@   requires[C19.write_gate_setparents] wok
+//@ func (*Location).addFact
+//@   requires[C19.write_gate_addfact] wok
+
+//@ func (*Location).GetRule
+//@   assert[C19.read_gate_getrule] at "loc.state.Get(ctx, id)": rok
+//@   assert[C10.enabled_gate_getrule] at "loc.state.Get(ctx, id)": eok
+//@ func (*Location).GetFact
+//@   assert[C19.read_gate_getfact] at "loc.state.Get(ctx, id)": rok
+//@   assert[C10.enabled_gate_getfact] at "loc.state.Get(ctx, id)": eok
+//@ func (*Location).StateSize
+//@   assert[C19.read_gate_statesize] at "loc.state.Count(ctx)": rok
+//@   assert[C10.enabled_gate_statesize] at "loc.state.Count(ctx)": eok
+//@ func (*Location).AddRule
+//@   assert[C10.enabled_gate_addrule] at "loc.state.Add(ctx, id, wrapper)": eok
+//@ func (*Location).RemRule
+//@   assert[C10.enabled_gate_remrule] at "loc.state.Rem(ctx, id)": eok
+//@ func (*Location).EnableRule
+//@   assert[C10.enabled_gate_enablerule_rem] at "RemProp(ctx, loc.state, id, \"disabled\")": eok
+//@   assert[C10.enabled_gate_enablerule_set] at "SetProp(ctx, loc.state, id, \"disabled\", true)": eok
+//@ func (*Location).addFact
+//@   assert[C10.enabled_gate_addfact] at "loc.state.Add(ctx, id, fact)": eok
+//@ func (*Location).RemFact
+//@   assert[C10.enabled_gate_remfact] at "loc.state.Rem(ctx, id)": eok
+//@ func (*Location).searchFacts
+//@   assert[C10.enabled_gate_searchfacts] at "loc.state.Search(ctx, pattern)": eok
+//@ func (*Location).searchRules
+//@   assert[C10.enabled_gate_searchrules] at "loc.state.FindCachedRules(ctx, event)": eok
+//@ func (*Location).Clear
+//@   assert[C10.enabled_gate_clear] at "loc.state.Clear(ctx)": eok
+//@ func (*Location).Delete
+//@   assert[C10.enabled_gate_delete] at "loc.state.Delete(ctx)": eok
+//@ func (*Location).SetParents
+//@   assert[C10.enabled_gate_setparents] at "loc.setParents(ctx, parents)": eok
+//@ func (*Location).GetParents
+//@   assert[C10.enabled_gate_getparents] at "loc.getParents(ctx)": eok
